@@ -14,7 +14,7 @@
       g Choice   : a = b and the entry's multiplicity is Any
       g Bag/Mixed: always.
    [Ordered ty v items] — every sub-element name resolves and every pair i < j of sub-elements is pair_ok. *)
-From AV Require Import Base.Bytes Base.Outcome Spec.SpecOps.
+From AV Require Import Base.Bytes Base.Outcome Spec.SpecOps Tree.Heap.
 Open Scope list_scope.
 Open Scope N_scope.
 
@@ -140,6 +140,18 @@ Definition loader_complaints (ty : etype) (v : N) (items : list (option N)) := l
 Definition LoaderAccepts (ty : etype) (v : N) (items : list (option N)) : Prop := loader_complaints ty v items = Some [].
 
 End Range.
+
+(* ------------------------------------------------------------------ the child list of a node of the heap model *)
+Definition item_of (w : world) (c : citem) : option (option N) :=
+  match c with
+  | CData _ => Some None
+  | CElem i => match w_nodes w i with Some cn => Some (Some (n_name cn)) | None => None end
+  end.
+Fixpoint items_of (w : world) (l : list citem) : option (list (option N)) :=
+  match l with
+  | [] => Some []
+  | c :: r => match item_of w c, items_of w r with Some x, Some xs => Some (x :: xs) | _, _ => None end
+  end.
 
 (* ------------------------------------------------------------------ Examples on a small hand-made table set:
    type 0 = Sequence [ e0 "A" (One) ; group 1 ; e3 "D" (Any) ],  group 1 = Choice [ e1 "B" (ZeroOrOne) ; e2 "C" (Any) ],
